@@ -1574,6 +1574,69 @@ func propC12(r *Run, w *World) {
 		}
 	}
 
+	// R4 (width): hexToDec holds the widest field it is asked to decode
+	if hd, err := w.Func("auparse", "hexToDec"); err != nil {
+		r.Anchor(err)
+	} else {
+		maxDigits := int64(0)
+		where := ""
+		var digits func(v ssa.Value) (int64, bool)
+		digits = func(v ssa.Value) (int64, bool) {
+			switch y := v.(type) {
+			case *ssa.Slice:
+				lo := int64(0)
+				if y.Low != nil {
+					k, ok := constInt(y.Low)
+					if !ok {
+						return 0, false
+					}
+					lo = k
+				}
+				if y.High == nil {
+					return 0, false
+				}
+				hi, ok := constInt(y.High)
+				if !ok {
+					return 0, false
+				}
+				return hi - lo, true
+			case *ssa.BinOp:
+				if y.Op == token.ADD {
+					a, ok1 := digits(y.X)
+					b, ok2 := digits(y.Y)
+					return a + b, ok1 && ok2
+				}
+			}
+			return 0, false
+		}
+		nSites := 0
+		for _, cs := range w.CallSites(hd) {
+			ci, isCall := cs.Instr.(ssa.CallInstruction)
+			if !isCall || len(ci.Common().Args) < 1 {
+				continue
+			}
+			nSites++
+			if d, ok := digits(ci.Common().Args[0]); ok && d > maxDigits {
+				maxDigits = d
+				where = w.Prog.Fset.Position(cs.Instr.Pos()).String()
+			}
+		}
+		okW := false
+		got := "no strconv.ParseInt/ParseUint(_, 16, n) found"
+		for _, name := range []string{"strconv.ParseInt", "strconv.ParseUint"} {
+			for _, c := range callsNamedIn(hd, name) {
+				if len(c.Common().Args) == 3 && isConstInt(c.Common().Args[1], 16) {
+					if bits, isK := constInt(c.Common().Args[2]); isK {
+						got = fmt.Sprintf("%s(_, 16, %d)", name, bits)
+						okW = bits == 0 || bits >= 4*maxDigits
+					}
+				}
+			}
+		}
+		r.Check(okW && nSites >= 4 && maxDigits >= 8, "hexToDec is wide enough", hd.Pos(), fmt.Sprintf("widest field: %d hex digits", maxDigits),
+			fmt.Sprintf("hexToDec parses with %s but is given a field of %d hex digits (%s; sin6_flowinfo is 32 bits): a valid record fails to decode and loses its address and port", got, maxDigits, where))
+	}
+
 	// R5 table lookups
 	r.Rule("C12.R5", "table lookups: arch through AuditArch.String, syscall through AuditSyscalls[arch][n], negative exit through AuditErrnoToName[-n] with exit >= 0 left unchanged", 3)
 	{
